@@ -50,7 +50,9 @@ LEVEL_NOTE = 'Trusted: CPython io.BytesIO as the file model, the harness ar writ
 TECHNIQUE = 'runtime monitoring: operation history vs io.BytesIO shadow model per member (deciding), private-offset invariant hook K9, tracing proxy on the shared file object'
 
 ALPH = [b'a', b'b', b'\n', b'\x00', b'\xff', b'`', b'!<arch>\n', b' ', b'`\n', b'0', b'/', b'\r']
-NAMES = ['a', 'b', 'debian-binary', 'control.tar.gz', 'data.tar.xz', 'x.y', 'A_1', 'fifteen-chars-x', 'sp ace', 'café', '0']
+NAMES = ['a', 'b', 'debian-binary', 'control.tar.gz', 'data.tar.xz', 'x.y', 'A_1', 'fifteen-chars-x', 'sp ace', 'café', '0',
+         # names that differ only by a character str.strip() takes for a blank but bytes.strip() does not
+         'b\xa0', '\u3000a', 'x.y\x85', 'A_1\x1f', '\xa0']
 
 
 def build_ar(members, style):
